@@ -47,6 +47,7 @@ type c14Sock struct {
 	live    bool // CONNECT accepted
 	rej     bool // CONNECT rejected, socket still open
 	nextPid int
+	freed   []int // ids of v5 QoS 2 publishes that the hook rejected (free again)
 	e       int // session expiry of the connection (0: ends with it)
 	subs    map[string]bool
 }
@@ -56,7 +57,7 @@ var c14Filters = []string{"a", "b", "a/b", "c", "#", "+", "a/#", "a/+", "+/b", "
 var c14Shared = []string{"$share/g/a", "$share/g/#", "$share/h/a", "$share/g/+", "$share/g/c/#"}
 var c14V5Codes = []int{0x80, 0x83, 0x84, 0x85, 0x86, 0x87, 0x88, 0x89, 0x8a, 0x8c, 0x90, 0x97, 0x9c, 0x9f}
 var c14SubCodes = []int{0x80, 0x83, 0x87, 0x8f, 0x91, 0x97, 0x9e, 0xa1, 0xa2}
-var c14PubCodes = []int{0x80, 0x83, 0x87, 0x90, 0x91, 0x97, 0x99, 0x10}
+var c14PubCodes = []int{0x80, 0x80, 0x80, 0x83, 0x87, 0x90, 0x91, 0x97, 0x99, 0x10}
 
 func c14Gen(r *Rng, i int) *Sx {
 	cfg := K("cfg",
@@ -119,6 +120,7 @@ func c14Gen(r *Rng, i int) *Sx {
 	if r.Chance(1, 14) {
 		subRules = append(subRules, L(A("all"), L(A("reject"), I(Pick(r, c14SubCodes)))))
 	}
+	rejTopics := map[string]bool{} // topics whose PUBLISH the OnMsgArrived hook rejects with a failure code
 	msgRules := []*Sx{}
 	for _, t := range []string{"a", "b", "a/b", "c", "c/d"} {
 		if !r.Chance(1, 2) {
@@ -144,6 +146,9 @@ func c14Gen(r *Rng, i int) *Sx {
 			act = L(A("accept"))
 		}
 		msgRules = append(msgRules, L(S(t), act))
+		if act.List[0].Atom == "reject" && act.List[1].Int() >= 0x80 {
+			rejTopics[t] = true
+		}
 	}
 	willRules := []*Sx{}
 	for _, c := range []string{"c1", "c2", "c3"} {
@@ -386,13 +391,23 @@ func c14Gen(r *Rng, i int) *Sx {
 			pid = s.nextPid
 			s.nextPid++
 		}
+		// a v5 QoS 2 PUBLISH that the hook rejected with a failure code has ended with its PUBREC: the packet id is free
+		// again and a new message may use it at once
+		if qos == 2 && len(s.freed) > 0 && r.Chance(1, 2) {
+			pid = s.freed[0]
+			s.freed = s.freed[1:]
+		}
 		nmsg++
 		payload := fmt.Sprintf("m%d", nmsg)
 		retain := r.Chance(1, 3) || (retainOften && r.Bool())
 		if retain && r.Chance(1, 8) {
 			payload = ""
 		}
-		p := L(A("publish"), Bool(false), I(qos), Bool(retain), S(Pick(r, c14Topics)), S(payload), I(pid), K("props", pubProps(s.ver)...))
+		topic := Pick(r, c14Topics)
+		if qos == 2 && s.ver == 5 && s.live && rejTopics[topic] {
+			s.freed = append(s.freed, pid)
+		}
+		p := L(A("publish"), Bool(false), I(qos), Bool(retain), S(topic), S(payload), I(pid), K("props", pubProps(s.ver)...))
 		add(L(A("send"), I(s.label), p))
 		if qos == 2 && s.live {
 			if r.Chance(1, 4) { // literal retransmission before PUBREL
